@@ -768,7 +768,9 @@ def map_overlap(
             new_axis = [d % ndim_out for d in new_axis]
 
             for axis in new_axis:
-                for existing_axis in list(depth.keys()):
+                # Move the last axes first, an ascending loop would overwrite
+                # entries that still have to be moved
+                for existing_axis in sorted(depth, reverse=True):
                     if existing_axis >= axis:
                         # Shuffle existing axis forward to give room to insert new_axis
                         depth[existing_axis + 1] = depth[existing_axis]
